@@ -321,6 +321,9 @@ package analysis
 //@   loop for.1 invariant tableOK(an) && 0 <= i
 //@   loop for.1 invariant forall j int :: 0 <= j && j < i && !typ.Field(j).Embedded() ==> (exists k int :: 0 <= k && k < len(out) && out[k].Field == typ.Field(j) && out[k].Tag == typ.Tag(j) && out[k].Type != nil)
 //@   loop for.1 invariant isnil(out) || (fresh(out) && allocated(out))
+//@   -- C09: an untagged embedded struct — exported or not: encoding/json promotes the fields of both — is flattened:
+//@   -- its fields are appended, all of them, in order
+//@   loop for.1 endassert field.Embedded() && tag.Get("json") == "" && is(fieldType, *Struct) ==> len(out) == athead(len(out)) + len(as(fieldType, *Struct).Fields) && (forall m int :: 0 <= m && m < len(as(fieldType, *Struct).Fields) ==> out[athead(len(out)) + m] == as(fieldType, *Struct).Fields[m])
 
 //@ func (*Analysis).createType
 //@   props C11 C12
